@@ -6,7 +6,7 @@ META = {
     "explanation": "CBMC on the real crypt_gensalt_rn + gensalt_<m>_rn with a fully symbolic 64-bit count and symbolic random bytes; the cost field of the generated setting is decoded by an independent decoder in the harness (decimal, 24-bit base-64, yescrypt/scrypt N,r,p digits) and compared with the documented function of count (default on 0, clamps, odd bsdicrypt, randomised windows of sha1crypt/sunmd5, EINVAL outside the logarithmic ranges, 0 only for fixed-cost methods); for sunmd5 the cost crypt *applies* (its 32-bit nrounds arithmetic) is also bounded below.",
     "functions": ["crypt_gensalt_rn", "gensalt_sha_rn", "gensalt_{md5crypt,sha256crypt,sha512crypt,nt,descrypt,bigcrypt,bsdicrypt,bcrypt,bcrypt_a,bcrypt_y,yescrypt,gost_yescrypt,scrypt,sha1crypt,sunmd5}_rn", "yescrypt_encode_params_r", "encode64_uint32", "N2log2"],
     "bounds": {"count": "all 2^64 values", "random bytes": "16 (sha1crypt 20) symbolic bytes", "output_size": "192"},
-    "outside": ["bcrypt $2x$ (no gensalt)", "nrbytes other than 16/20 (C12, C13)", "sha1crypt with 2^24 < count < 2^32 in the quick tier (symbolic 64-bit modulo plus decimal printing: no verdict within 20 minutes; thorough tier only)"],
+    "outside": ["bcrypt $2x$ (no gensalt)", "nrbytes other than 16/20 (C12, C13)", "sha1crypt with 2^24 < count < 2^32 (symbolic 64-bit modulo plus decimal printing: no verdict within 20 minutes)"],
     "assumptions": ["decimal printing model (models/libc.c): digits are an uninterpreted function of the value constrained by Horner evaluation"],
     "trusted": [],
     "claim": "For every unsigned long count and every random-byte content the solver shows the generated cost field equals the documented function of count (or EINVAL is returned where documented), and that no accepted count produces a setting cheaper than the method minimum - except the recorded finding F4 (sunmd5 wrap), which is isolated by its own query.",
@@ -26,8 +26,8 @@ def queries(tier, seed, build):
         elif name == "sha1crypt":
             # the symbolic 32-bit modulo random % (count/4): split the count axis
             ranges = [("small", 0, 4096), ("mid", 4097, 16777216), ("huge", 4294967296, None)]
-            if tier == "thorough":
-                ranges.append(("big", 16777217, 4294967295))   # no verdict within 20 min in probes: thorough only
+            # 2^24 < count < 2^32: no verdict within 20 minutes in probes (symbolic 64-bit remainder plus
+            # decimal printing); outside the claim in both tiers
             for tag, lo, hi in ranges:
                 d = ["COUNT_MIN=%d" % lo] + (["COUNT_MAX=%d" % hi] if hi is not None else [])
                 qs.append(cost_query("%s-%s" % (name, tag), prefix, spec, extra, nrb, win, defs=d, timeout=1800))
